@@ -78,7 +78,19 @@ func (ex *Exec) axioms(cone []*Term) []*Term {
 			}
 		case "uf:legacybody":
 			out = append(out, ILe(IntC(0), t))
-		case "uf:toupper", "uf:tolower", "uf:quote", "uf:trimprefix", "uf:trimsuffix", "uf:replaceall", "uf:boxstr":
+		case "uf:replaceall":
+			out = append(out, ILe(IntC(0), t))
+			if len(t.args) == 3 && t.args[1].IsConst() && t.args[2].IsConst() {
+				o, ok1 := Lits.byCode[t.args[1].ival.Int64()]
+				n, ok2 := Lits.byCode[t.args[2].ival.Int64()]
+				if ok1 && ok2 {
+					// on program literals (incl. "") the library's own answer
+					for _, l := range append([]string(nil), Lits.sorted...) {
+						out = append(out, Implies(Eq(t.args[0], IntC(Lits.Code(l))), Eq(t, IntC(Lits.Code(strings.ReplaceAll(l, o, n))))))
+					}
+				}
+			}
+		case "uf:toupper", "uf:tolower", "uf:quote", "uf:trimprefix", "uf:trimsuffix", "uf:boxstr":
 			out = append(out, ILe(IntC(0), t))
 		}
 	}
